@@ -2,10 +2,9 @@
    Model: Model/Shutdown.v, tied to Cluster/Session/ControlConnection/HostConnection by per-step correspondence (checks/C45.py).
    Proved here for every number of hosts and every operation history of any length: after Cluster.shutdown everything
    is shut down, no task/timer is accepted and no timer fires; after Session.shutdown requests and internal submissions are
-   refused.  The connection-accounting statement (all opened connections closed) is refuted at full strength by a witness
-   (a pool replacement finishing while the pool is being shut down, defect in pool.py owned by C12); its partial form is
-   checked on the implementation by the oracle over generated histories, not proved (see docs/C45.md). *)
-From Coq Require Import ZArith List Bool Arith.
+   refused; and C45_all_closed at full strength (after the pool.py fixes 084ea49 / 43f5e7c and the cluster.py fix cbd87a0):
+   every connection ever opened is closed in every state after Cluster.shutdown (invariant KK in Proofs/C45_proofs.v). *)
+From Coq Require Import ZArith List Bool Arith Lia.
 From Verif Require Import Shutdown C45_proofs.
 Import ListNotations.
 
@@ -37,18 +36,35 @@ Qed.
 Print Assumptions C45_requests_refused.
 
 Definition all_closed (s : st) : bool := forallb (fun c => existsb (Nat.eqb c) (closed s)) (seq 0 (nconn s)).
-Definition C45_all_closed_full : Prop := forall n os, let s := run (init n) os in
-  cl_down s = true -> queue s = [] -> all_closed s = true.
-(* a replacement connection finishing while Cluster.shutdown runs stays open *)
-Theorem C45_all_closed_refuted : ~ C45_all_closed_full.
-Proof. intros H. specialize (H 1 [OReplace 0; ORun 0 Ok true] eq_refl eq_refl). vm_compute in H. discriminate. Qed.
-Print Assumptions C45_all_closed_refuted.
+
+(* FULL statement: in every state reached after Cluster.shutdown -- whatever was queued, connecting or scheduled when it
+   ran, and whether or not the executor has drained yet -- every connection ever opened (pools, replacements, control
+   connection, reconnection attempts, connects that finished after or during the shutdown) is closed. *)
+Theorem C45_all_closed : forall n os, let s := run (init n) os in
+  cl_down s = true -> all_closed s = true /\ forall c, c < nconn s -> In c (closed s).
+Proof.
+  intros n os s Hc. destruct (C45_shutdown_is_total n os Hc) as (A & B & _).
+  pose proof (KK_run os _ (KK_init n)) as HK. fold s in HK.
+  pose proof (all_closed_when_down s HK A B) as H. split; auto.
+  unfold all_closed. apply forallb_forall. intros c Hin. apply in_seq in Hin. apply existsb_exists.
+  exists c. split; [apply H; lia | apply Nat.eqb_refl].
+Qed.
+Print Assumptions C45_all_closed.
+
+(* after Session.shutdown alone every connection is closed except, possibly, the live control connection *)
+Theorem C45_session_all_closed : forall n os c, let s := run (init n) os in
+  sess_down s = true -> c < nconn s -> In c (closed s) \/ cc_conn s = Some c.
+Proof.
+  intros n os c s Hs Hc. pose proof (KK_run os _ (KK_init n)) as HK. fold s in HK.
+  exact (session_closed_when_down s HK Hs c Hc).
+Qed.
+Print Assumptions C45_session_all_closed.
 
 (* concrete non-trivial runs: shutdown with queued pool creation, control reconnect and timers: everything ends closed *)
 Example C45_nonvacuous : let s := run (init 2) [OPoolTask 0; OCCReconnect; OStartRecon 1; OFire 0 Err false; OClusterShutdown;
                                                ORun 0 Ok false; ORun 0 Ok false] in
-  cl_down s = true /\ queue s = [] /\ nconn s = 5 /\ all_closed s = true /\ leaked s = false.
+  cl_down s = true /\ queue s = [] /\ nconn s = 5 /\ all_closed s = true.
 Proof. vm_compute. repeat split; auto. Qed.
-Example C45_nonvacuous_during : let s := run (init 1) [OPoolTask 0; ORun 0 Ok true] in
-  cl_down s = true /\ all_closed s = true.
+Example C45_nonvacuous_during : let s := run (init 1) [OPoolTask 0; OReplace 0; ORun 1 Ok true; ORun 0 Ok false] in
+  cl_down s = true /\ nconn s = 4 /\ all_closed s = true.
 Proof. vm_compute. auto. Qed.
